@@ -186,8 +186,8 @@ ATTACKS = ['external_general_entity_file', 'external_parameter_entity', 'externa
            'billion_laughs', 'xinclude']
 
 
-def _attack_doc(kind, family, canary_path):
-    body = '<tns:m xmlns:tns="%s"><tns:i>%s</tns:i></tns:m>'
+def _attack_doc(kind, family, canary_path, slot):
+    body = '<tns:m xmlns:tns="%s"><tns:i>%s</tns:i><tns:u>%s</tns:u></tns:m>'
     if kind == 'external_general_entity_file':
         dtd = '<!DOCTYPE x [<!ENTITY e SYSTEM "file://%s">]>' % canary_path
         payload = '&e;'
@@ -198,8 +198,8 @@ def _attack_doc(kind, family, canary_path):
         dtd = '<!DOCTYPE x SYSTEM "file://%s">' % canary_path
         payload = '5'
     elif kind == 'internal_entity':
-        dtd = '<!DOCTYPE x [<!ENTITY e "5">]>'
-        payload = '&e;'
+        dtd = '<!DOCTYPE x [<!ENTITY e "INTERNAL-ENTITY-TEXT-77">]>'
+        payload = 'a&e;b' if slot == 'u' else '&e;'
     elif kind == 'billion_laughs':
         ents = ['<!ENTITY a0 "lol">'] + ['<!ENTITY a%d "%s">' % (i, ('&a%d;' % (i - 1)) * 10) for i in range(1, 10)]
         dtd = '<!DOCTYPE x [%s]>' % ''.join(ents)
@@ -207,7 +207,7 @@ def _attack_doc(kind, family, canary_path):
     else:
         dtd = ''
         payload = '<xi:include xmlns:xi="http://www.w3.org/2001/XInclude" href="file://%s" parse="text"/>' % canary_path
-    doc = body % (TNS, payload)
+    doc = body % ((TNS, payload, 'x') if slot == 'i' else (TNS, '5', payload))
     if family == 'xml':
         return (dtd + doc).encode()
     ns = SOAP11_NS if family == 'soap11' else SOAP12_NS
@@ -216,36 +216,60 @@ def _attack_doc(kind, family, canary_path):
 
 def _mk_audit(family):
     @obligation('C17.audit.%s' % family, targets=['spyne.server.wsgi:WsgiApplication.handle_rpc'],
-                bounded="canary corpus of 6 attack documents against the installed lxml (audit of the assumed external "
-                        "contract, not a proof)",
-                desc="with default settings, external/parameter entities, external DTDs and XInclude never bring the "
-                     "canary file's content to user code or into the response; entity bombs do not expand")
+                bounded="canary corpus of 6 attack documents x {integer, text} slots x {with, without charset} against the "
+                        "installed lxml (audit of the assumed external contract, not a proof)",
+                desc="with default settings, external/parameter/internal entities, external DTDs and XInclude never bring "
+                     "the canary file's content or entity replacement text to user code or into the response; entity "
+                     "bombs do not expand")
     def ob(c):
+        from spyne import Application, ServiceBase, rpc
+        from spyne.model.primitive import Integer, Unicode
+        from spyne.server.wsgi import WsgiApplication
+        from .pipeline import protocols
         kind = c.choose(ATTACKS, 'attack')
+        slot = c.choose(['i', 'u'], 'slot')
+        charset = c.choose([False, True], 'content_type_charset')
         d = tempfile.mkdtemp(prefix='pyvc-canary-')
         canary = os.path.join(d, 'canary.txt')
         token = 'CANARY-4242-TOKEN'
         with open(canary, 'w') as f:
-            f.write('77' if kind != 'external_general_entity_file' else token)
+            f.write('77' if slot == 'i' else token)
+        got = []
+
+        def m(ctx, i, u):
+            got.append((i, u))
+            return u
+        m._pyvc_native = True
         try:
-            h = Harness(c, family, user_outcomes=['return'], validator=None)
-            body = _attack_doc(kind, family, canary)
-            env = h.env('valid')
-            env.update(CONTENT_LENGTH=str(len(body)))
-            env['wsgi.input'] = io.BytesIO(body)
-            h.env = lambda k: env
-            out = h.run_wsgi('valid')
+            Svc = type(ServiceBase)('Svc', (ServiceBase,), {'m': rpc(Integer, Unicode, _returns=Unicode)(m)})
+            inp, outp = protocols(family, None)
+            wsgi = WsgiApplication(Application([Svc], TNS, name='VApp', in_protocol=inp, out_protocol=outp))
+            body = _attack_doc(kind, family, canary, slot)
+            if charset:
+                body = b'<?xml version="1.0" encoding="utf-8"?>' + body
+            env = {'REQUEST_METHOD': 'POST', 'PATH_INFO': '/', 'QUERY_STRING': '', 'SERVER_NAME': 'h',
+                   'SERVER_PORT': '80', 'wsgi.url_scheme': 'http', 'wsgi.input': io.BytesIO(body),
+                   'CONTENT_TYPE': 'text/xml; charset=utf-8' if charset else 'text/xml', 'CONTENT_LENGTH': str(len(body))}
+            seen = []
+
+            def sr(status, headers, exc_info=None):
+                seen.append(status)
+            sr._pyvc_native = True
+            out = c.run(wsgi, env, sr)
+            resp = b''
+            if out.returned:
+                chunks = []
+                c.run(lambda: chunks.extend(list(out.value)))
+                resp = b''.join(x for x in chunks if isinstance(x, bytes))
         finally:
             os.unlink(canary)
             os.rmdir(d)
         c.check('callable_returns', out.returned, detail=repr(out))
-        resp = b''.join(t[1] for t in c.trace if t[0] == 'chunk' and isinstance(t[1], bytes))
-        args = [t[1] for t in c.trace if t[0] == 'user_fn']
-        c.check('canary_not_in_response', token.encode() not in resp and b'77' not in resp, detail=resp[:200])
-        c.check('canary_not_in_user_args', all(a != 77 and token not in repr(a) for a in args), detail=args)
+        leak = [token, 'INTERNAL-ENTITY-TEXT-77', '77']
+        c.check('nothing_in_response', all(x.encode() not in resp for x in leak), detail=resp[:300])
+        c.check('nothing_in_user_args', all(x not in repr(a) for a in got for x in leak), detail=got)
         if kind == 'billion_laughs':
-            c.check('bomb_not_expanded', all(a is None or len(repr(a)) < 100 for a in args) and len(resp) < 5000,
-                    detail=(args, len(resp)))
+            c.check('bomb_not_expanded', all(len(repr(a)) < 200 for a in got) and len(resp) < 5000, detail=(got, len(resp)))
     return ob
 
 
